@@ -623,6 +623,12 @@ def gen_cases(rng, tier):
         bodies.append(c)
         if rng.random() < 0.5:
             bodies.append(dict(c, b1=s2, b2=s1, cls=c["cls"] + "_swapped"))
+        elif mode != "separated":
+            # the same pair judged after a history of calls on the same objects (roles and frames changed in between)
+            s3, _ = hg.body_pair(rng, "random")
+            s3["pose"] = hg.pose(hg.rand_rot(rng), [0.5 * (s1["pose"][i][3] + s2["pose"][i][3]) + 0.2 * hg.body_size(s1) * rng.uniform(-1, 1)
+                                                     for i in range(3)])
+            bodies.append(dict(c, warm=s3, cls=c["cls"] + "_after_history"))
     units = gen_units(rng, 120 if quick else 1200)
     return pairs, bodies, units
 
